@@ -439,6 +439,9 @@ func genSmallBase(t *rapid.T, maxN int) *oracle.G {
 
 // genSymmetric draws from families whose canonical-labelling search needs automorphism pruning.
 func genSymmetric(t *rapid.T, maxN int) *oracle.G {
+	if maxN < 6 {
+		return genGnp(t, rapid.IntRange(0, max(maxN, 0)).Draw(t, "n"))
+	}
 	fit := func(g *oracle.G) *oracle.G {
 		if g.N > maxN {
 			keep := make([]int, maxN)
